@@ -590,6 +590,9 @@ def run(tier, seed):
     # ------------------------------------------------------------------ 1. translator cross-check
     model_lines.append("c04.rules")
     model_expect.append(("rules", None))
+    # the literal exclusion list of the table obligation must mirror the known findings one-to-one
+    model_lines.append("c04.excluded")
+    model_expect.append(("excluded", None))
 
     # ------------------------------------------------------------------ helpers for the programs
     def si_of(q):
@@ -1345,6 +1348,14 @@ def run(tier, seed):
         if kind == "lutadd":
             if rep[0] != "ok":
                 chk.disagree("c04.lutadd", str(rep))
+        elif kind == "excluded":
+            excl = set(x for x in (rep[1].split(",") if rep[0] == "ok" and len(rep) > 1 and rep[1] else []))
+            known_now = [k for k in core.load_known() if k["property"] == "C04" and k.get("status") == "known"]
+            # findings about a ufunc's *rule* are keyed `<ufunc>|si` / `<ufunc>|dim` with <ufunc> a registry name
+            known_ufuncs = set(k["key"].split("|")[0] for k in known_now if k["key"].split("|")[0] in X.get("ufuncRules", {}))
+            if excl != known_ufuncs:
+                chk.disagree("c04.excluded", f"exclusion list of rule_matches_class_partial {sorted(excl)} does not mirror the known findings "
+                                             f"about ufunc rules {sorted(known_ufuncs)}")
         elif kind == "rules":
             if rep[0] != "ok":
                 chk.disagree("c04.rules", str(rep))
